@@ -178,15 +178,21 @@ func runRaceCase(c rcCase, bin, tmp string) map[string]interface{} {
 						}
 					case 8, 9:
 						id := nextBroker.Add(1)
-						if mux {
-							muxSeq.Lock()
-							defer muxSeq.Unlock()
-						}
+						// (multiplexed: the knock-and-dial handshakes are made one at a time; an Accept for an id
+						// nobody is dialling yet may be issued while another id's handshake is going on)
 						if rng.Intn(2) == 0 {
 							stub.Do(vp.Cmd{Op: "serve", ID: id, S: strconv.Itoa(int(id))})
+							if mux {
+								muxSeq.Lock()
+								defer muxSeq.Unlock()
+							}
 							stub.Broker.DialWho(id)
 						} else {
 							stub.Broker.ServeWho(id, strconv.Itoa(int(id)))
+							if mux {
+								muxSeq.Lock()
+								defer muxSeq.Unlock()
+							}
 							stub.Do(vp.Cmd{Op: "dial", ID: id})
 						}
 					case 10:
